@@ -2,6 +2,7 @@ SPECIFICATION Spec
 CONSTANTS MaxDepth = 3
           MaxLen = 3
           Vals <- MCVals
-          Limits <- LimitsT
+          Limits <- LimitsQ
+          MaxClose = 1
 INVARIANTS TypeOK ListLaw ValLaw LevelLaw ReadAhead CloseReaches ClosedOnce
 CHECK_DEADLOCK FALSE
